@@ -35,8 +35,9 @@ type RdbReplay struct {
 
 func (rr *RdbReplay) Replay(e *rdb.BinEntry) (err error) {
 	var ttlms uint64
-	if rr.ReplaceHashTag && e.FirstBin() {
-		// a continuation chunk of a split value already carries the key of its first chunk
+	if rr.ReplaceHashTag {
+		// every chunk of a split value carries the key as it is in the snapshot (the loader keeps
+		// its own copy of it) : stripping gives the same key for all of them
 		e.Key = bytes.Replace(e.Key, []byte("{"), []byte(""), 1)
 		e.Key = bytes.Replace(e.Key, []byte("}"), []byte(""), 1)
 	}
